@@ -101,6 +101,28 @@ P["C12"]=dict(level="other",
  quick=dict(harnesses=c12q, jobs=6, workers=2),
  thorough=dict(harnesses=c12t, jobs=6, workers=2))
 
+FO_EXPL=("N concurrent Gets on one Failover / FailoverOf[int] instance are explored thread by thread in event mode from the go/ssa of the real Get (both closures incl. the background goroutine), valueFromError/freshEnough, waitForValue, refreshStale, doBuild, ctxSync: every access to the shared key-lock map, the per-key lock objects (val/err/channel), Failover.lock and the channel close/receive is an event; the per-thread automata are composed with a symbolic scheduler (clock variables + read-from relation, z3 with cvc5/z3-new as fallback). The backend is a harness stub with one register per key (each call one atomic step; entry absent / fresh / stale / too stale is a solver variable per key), the builder outcome per invocation is a solver variable, each Get picks its key (2 keys). One composition per combination of SyncRead x SyncUpdate x FailHard x MaxStaleness{0,set} (16 configurations per harness). ")
+FO_BOUNDS="N=2 Gets (quick), N=3 Gets on one key (thorough); 2 keys; one Get per thread; clock frozen during the burst; FailedUpdateTTL=-1 (failure cache off) in the concurrent compositions; no injected backend faults except in the *_faults harnesses"
+FO_OUT="more than 3 concurrent Gets; re-entrant callbacks; the real backends under Failover concurrently (their per-call atomicity is C08); the failure cache under concurrency"
+FOQ=["verifL_Failover_2:l2","verifL_FailoverOf_2:l2"]
+FOT=["verifL_Failover_2:l2","verifL_FailoverOf_2:l2","verifL_Failover_2_faults:l2","verifL_FailoverOf_2_faults:l2","verifL_Failover_3:l2","verifL_FailoverOf_3:l2"]
+FOTECH="symbolic execution of each thread from go/ssa into an event automaton + bounded model checking of the composition with a symbolic scheduler (partial-order SMT encoding: clock variables + read-from relation)"
+def fo(pid, what, labels, seq=None, extra_expl="", level="model_checking", quick_l2=FOQ, thorough_l2=FOT):
+    P[pid]=dict(level=level, explanation=FO_EXPL+what+extra_expl, bounds=FO_BOUNDS, outside=FO_OUT,
+      assumptions=["backend calls are atomic per call (harness stub with one register per key)","blocks are formed by Lipton reduction: Lock..Unlock regions over locations that every access seen performs under a common mutex are one atomic step; the lockset facts are recomputed on every run and are part of the exploration fixpoint"],
+      technique=FOTECH,
+      quick=dict(harnesses=seq or [], l2=quick_l2, l2_labels=labels, l2_timeout=120, l2_jobs=2, l2_par=16),
+      thorough=dict(harnesses=seq or [], l2=thorough_l2, l2_labels=labels, l2_timeout=600, l2_jobs=2, l2_par=16))
+
+fo("C01","Ghost counters updated atomically at builder entry/exit assert that no schedule puts two builder invocations for the same key in flight at once.",
+   "at most one build per key in flight")
+fo("C02","When a Get returns, a provenance oracle (evaluated atomically with ghost state recording which builder invocations finished with which outcome) asserts: a nil-error value is the key's initially stored value or the token of a finished successful build for that key; an error is a finished failing build's error for that key (or an injected backend fault). The sequential harness additionally injects backend read/write faults at every call position of a lone Get on both APIs.",
+   "a value returned with nil error|an error returned was produced|get returned", seq=["verifH_C02_SeqFaults","verifH_C02_SeqFaultsOf"])
+fo("C04","Every schedule is checked for deadlock (a maximal execution in which a thread rests at a Lock or channel receive that the final state does not let through), for close of a closed channel and unlock of an unlocked mutex; at quiescence (all Gets and background builds finished) the key-lock map is empty and no build is in flight.",
+   "no key lock remains|no build in flight|auto:|quiescence")
+fo("C05","With SyncRead enabled (and no injected faults) no builder invocation for a key starts after a build for that key has succeeded, under every schedule. The failure-suppression half is decided sequentially (verifH_C05_*): after a failed build the cached error is served without invoking the builder while t2-t1 is inside the failure TTL window, the builder is invoked again after it, and always with FailedUpdateTTL=-1.",
+   "SyncRead: no build starts", seq=["verifH_C05_Failover:int","verifH_C05_FailoverOf:int"])
+
 json.dump({"common_assumptions":common,"properties":P},open('/verif/checks.json','w'),indent=1)
 print("checks.json:",sorted(P))
 
